@@ -97,6 +97,10 @@ func genOp(r *rand.Rand) opSpec {
 }
 
 func (hs *hist) fail(err error) {
+	var sl stopLineage
+	if errors.As(err, &sl) {
+		return
+	}
 	var ie inconclusive
 	if errors.As(err, &ie) {
 		hs.c.Inconclusive(ie.s)
